@@ -5,6 +5,7 @@ import (
 	"sort"
 	"strings"
 	"testing"
+	"unicode/utf8"
 
 	"github.com/opsidian/parsley/combinator"
 	"github.com/opsidian/parsley/data"
@@ -23,6 +24,9 @@ type GCase struct {
 	// Long > 0 (C01 only): instead of a generated grammar, one of four left-recursive templates whose
 	// derivations are known in closed form, on an input with Long repetitions (recursion depths far
 	// beyond what the 62-byte reference can hold)
+	// Wide != 0: the model's terminal 'b' is this multi-byte rune in the library's grammar and input
+	// (end offsets are mapped back; trees are not compared)
+	Wide     int `json:"wide,omitempty"`
 	Long     int `json:"long,omitempty"`
 	LongKind int `json:"longKind,omitempty"`
 }
@@ -200,17 +204,26 @@ func checkC01(ci interface{}, st *Stats) error {
 	g.number()
 	lr := classifyGrammar(g, st)
 	ref := NewRef(g, in)
+	// (wide: the library sees a multi-byte rune wherever the model has the byte 'b')
+	w := widen(in, rune(c.Wide))
+	wide := c.Wide != 0
+	if wide {
+		if c.Wide < 0x80 || !utf8.ValidRune(rune(c.Wide)) {
+			return Discard{"not a multi-byte rune"}
+		}
+		st.Class("terminal b is a multi-byte rune (end offsets mapped back)")
+	}
 	probe := NewProbe()
-	probe.InLen = len(in)
-	_, _, base := NewCtxAt(in, c.PreLen)
+	probe.InLen = len(w.Lib)
+	_, _, base := NewCtxAt(w.Lib, c.PreLen)
 	probe.Base = base
 	if c.PreLen > 0 {
 		st.Class("file placed after another file")
 	}
-	b := Build(g, BuildOpts{MemoRules: c.memoRules(), Probe: probe})
+	b := Build(g, BuildOpts{MemoRules: c.memoRules(), Probe: probe, Wide: rune(c.Wide)})
 	if len(in) >= 2 {
 		// the grammar value has a history: it parsed a shorter input (the first half) before
-		ctx0, f0, _ := NewCtxAt(in[:len(in)/2], 0)
+		ctx0, f0, _ := NewCtxAt(widen(in[:len(in)/2], rune(c.Wide)).Lib, 0)
 		if _, _, berr := parseGuarded(b.NT[0], ctx0, data.EmptyIntMap, f0.Pos(0)); berr != nil {
 			return fmt.Errorf("N0@0 on the first half of the input does not terminate within the re-entry bound: %v", berr)
 		}
@@ -222,16 +235,16 @@ func checkC01(ci interface{}, st *Stats) error {
 	res := make([][]q, len(g.Rules))
 	lrRules := leftRecursiveRules(g)
 	nontrivial := false
-	trims := hasKind(g, KLTrim) || hasKind(g, KRTrim)
-	if trims {
+	trims := hasKind(g, KLTrim) || hasKind(g, KRTrim) || wide
+	if trims && !wide {
 		// whitespace trimming is followed on the span level: which end offsets a rule reaches
 		st.Class("grammar with whitespace trimming (span level)")
 	}
 	for nt := range g.Rules {
 		res[nt] = make([]q, len(in)+1)
 		for i := 0; i <= len(in); i++ {
-			ctx, f, _ := NewCtxAt(in, c.PreLen)
-			pn, _, berr := parseGuarded(b.NT[nt], ctx, data.EmptyIntMap, f.Pos(i))
+			ctx, f, _ := NewCtxAt(w.Lib, c.PreLen)
+			pn, _, berr := parseGuarded(b.NT[nt], ctx, data.EmptyIntMap, f.Pos(w.Off[i]))
 			if berr != nil {
 				return fmt.Errorf("N%d@%d does not terminate within the re-entry bound: %v", nt, i, berr)
 			}
@@ -240,8 +253,12 @@ func checkC01(ci interface{}, st *Stats) error {
 			var ends bits
 			for _, alt := range alternatives(pn) {
 				r := RenderNode(alt, base)
-				e := int(alt.ReaderPos()) - base
-				if (int(alt.Pos())-base != i && !trims) || int(alt.Pos())-base < i || e < i || e > len(in) {
+				e, okE := w.Inv[int(alt.ReaderPos())-base]
+				sOff, okS := w.Inv[int(alt.Pos())-base]
+				if !okE || !okS {
+					return fmt.Errorf("N%d@%d returned a tree whose span %d..%d does not lie on rune boundaries of %q: %s", nt, i, int(alt.Pos())-base, int(alt.ReaderPos())-base, w.Lib, r)
+				}
+				if (sOff != i && !trims) || sOff < i || e < i || e > len(in) {
 					return fmt.Errorf("N%d@%d returned a tree with a span outside [%d,%d]: %s", nt, i, i, len(in), r)
 				}
 				if !trims && !val.Valid(g.Rules[nt], alt, i) {
@@ -265,7 +282,7 @@ func checkC01(ci interface{}, st *Stats) error {
 		}
 	}
 	tr := NewTreeRef(ref, 300, 12)
-	if tr.Capped {
+	if tr.Capped || wide {
 		st.Class("span-only(tree cap)")
 	} else {
 		st.Class("tree-complete")
@@ -326,11 +343,15 @@ func init() {
 				g.number()
 				memoAll = true
 			}
+			wideRune := 0
+			if !o.RefTrims && rapid.IntRange(0, 5).Draw(t, "wide") == 0 {
+				wideRune = int(rapid.SampledFrom([]rune{0x80, 0xe9, 0xff, 0x100, 0x7ff, 0x800, 0x20ac, 0xfffd, 0xffff, 0x10000, 0x1f600}).Draw(t, "wideRune"))
+			}
 			pre := 0
 			if rapid.IntRange(0, 4).Draw(t, "placed") == 2 {
 				pre = rapid.SampledFrom([]int{1, 3, 17, 300, 65533, 65536, 70000, 140000}).Draw(t, "preLen")
 			}
-			return &GCase{G: g, In: GenInput(t, g, o), MemoAll: memoAll, PreLen: pre}
+			return &GCase{G: g, In: GenInput(t, g, o), MemoAll: memoAll, PreLen: pre, Wide: wideRune}
 		},
 		Check: checkC01,
 	})
